@@ -148,6 +148,13 @@ def prog(group: int, level: int, i: int, n: float, n_none: bool, iz_none: bool, 
         kw2 = P.param.deserialize_parameters(txt, subset=subset)
         if subset is not None:
             check('C15.subset', sorted(kw2) == sorted(subset), dict(info, got=sorted(kw2), subset=subset))
+            # the subset given to deserialize_parameters selects from a larger serialization as well
+            full = src.param.serialize_parameters()
+            kw3 = P.param.deserialize_parameters(full, subset=subset)
+            check('C15.subset', sorted(kw3) == sorted(subset), dict(info, got=sorted(kw3), subset=subset, from_full=True))
+            for name in subset:
+                a, c = kw2[name], kw3[name]
+                check('C15.subset', type(a) is type(c) and a == c, dict(info, name=name, from_full=True))
         q = P(**{k: v for k, v in kw2.items() if k != 'name'})
         for name in (subset if subset is not None else ALL):
             a, c = getattr(src, name), getattr(q, name)
